@@ -638,6 +638,10 @@ func genOp(t *rapid.T, pInvalid float64) Op {
 			return Op{Op: "elem", A: sel(), F: pickStr(t, tLists), I: vk.Uniform(t, 5) - 2, Star: vk.Chance(t, 0.5)}
 		}
 		f := pickStr(t, tMaps)
+		if vk.Chance(t, 0.5) {
+			// through dict(m.f): an ordinary dict lookup, so only keys of the field's own key type (no conversion happens)
+			return Op{Op: "elem", A: sel(), F: f, K: pv(genKey(t, tMapKV[f][0], 0)), Star: true, I: vk.Uniform(t, 3)}
+		}
 		return Op{Op: "elem", A: sel(), F: f, K: pv(genKey(t, tMapKV[f][0], pInvalid))}
 	case r < 67:
 		f := pickStr(t, tLists)
@@ -684,7 +688,12 @@ func genScenario(t *rapid.T) []Op {
 	}
 	freeze := func(cands ...int) Op { return Op{Op: "freeze", A: cands[vk.Uniform(t, len(cands))]} }
 	var ops []Op
-	switch vk.Uniform(t, 8) {
+	switch vk.Uniform(t, 9) {
+	case 8: // a value of a map-of-messages field taken out of dict(m.mst) before or after the freeze, written afterwards
+		ops = []Op{{Op: "view", A: a, F: "mst"}, freeze(a), {Op: "elem", A: last, F: "mst", K: pv(vStr("a")), Star: true, I: vk.Uniform(t, 3)}, scalarSet()}
+		if vk.Chance(t, 0.5) {
+			ops[1], ops[2] = ops[2], ops[1]
+		}
 	case 7: // an element of a repeated message field, picked out of an iteration before the message is frozen, written afterwards
 		ops = []Op{{Op: "view", A: a, F: "rt"}, {Op: "elem", A: last, F: "rt", I: vk.Uniform(t, 3) - 1, Star: true}, freeze(a), scalarSet()}
 	case 0: // o.sub = m.sub, freeze one side, write through the other side's view
@@ -716,7 +725,7 @@ func genScenario(t *rapid.T) []Op {
 			{Op: "view", A: pickInt(t, a, b), F: "rt"}, {Op: "elem", A: last, F: "rt", I: vk.Uniform(t, 3) - 1, Star: vk.Chance(t, 0.5)}, scalarSet()}
 	case 3: // map of messages
 		ops = []Op{{Op: "view", A: a, F: "mst"}, {Op: "set", A: b, F: "mst", V: pv(vHandle(last))}, freeze(a, b),
-			{Op: "view", A: pickInt(t, a, b), F: "mst"}, {Op: "elem", A: last, F: "mst", K: pv(vStr("a"))}, scalarSet()}
+			{Op: "view", A: pickInt(t, a, b), F: "mst"}, {Op: "elem", A: last, F: "mst", K: pv(vStr("a")), Star: vk.Chance(t, 0.5), I: vk.Uniform(t, 3)}, scalarSet()}
 	case 4: // the frozen default of an unset message field, assigned elsewhere
 		ops = []Op{{Op: "set", A: a, F: "sub", V: pv(vNone)}, {Op: "view", A: a, F: "sub"}, {Op: "set", A: b, F: "sub", V: pv(vHandle(last))},
 			{Op: "view", A: b, F: "sub"}, scalarSet()}
